@@ -267,3 +267,218 @@ Proof.
   - intros u t0 _ Ht0. exact Ht0.
   - intros o l r' Hl Hr. cbn. rewrite Hl, Hr. reflexivity.
 Qed.
+
+(* ---------- general terms, atoms, comparisons ---------- *)
+Lemma peg_gterm_ok fuel : rec_ok (peg_gterm fuel) (fun t => nm_gterm t = true).
+Proof.
+  intros ts x r H E. unfold peg_gterm in E.
+  assert (G : forall t r0, peg_iterm fuel ts = Ok t r0 -> nm_iterm t = true /\ toks_ok r0) by (intros; eapply peg_iterm_ok; eassumption).
+  destruct ts as [|t ts].
+  - destruct (peg_iterm fuel []) as [t r0| |] eqn:EI; try discriminate. injection E as <- <-. apply (G t r0 eq_refl).
+  - pose proof H as H'. apply toks_ok_cons in H'. destruct H' as [Ht Hts].
+    destruct t; try (destruct s);
+      try (injection E as <- <-; split; [exact Ht|exact Hts]);
+      (destruct (peg_iterm fuel (_ :: ts)) as [? ?| |] eqn:EI; try discriminate;
+       injection E as <- <-; first [exact (G _ _ eq_refl)|split; [first [exact Ht|reflexivity]|exact Hts]]).
+Qed.
+
+Lemma peg_terms_ok fuel : rec_ok (peg_terms fuel) (fun l => forallb nm_gterm l = true).
+Proof.
+  induction fuel as [|f IH]; intros ts x r H E; [discriminate|]. cbn [peg_terms] in E.
+  destruct (peg_gterm f ts) as [t r0| |] eqn:EG; try discriminate.
+  destruct (peg_gterm_ok f ts t r0 H EG) as [Pt Hr0].
+  assert (D : (x = [t] /\ r = r0) -> forallb nm_gterm x = true /\ toks_ok r).
+  { intros [-> ->]. cbn. rewrite Pt. split; [reflexivity|exact Hr0]. }
+  destruct r0 as [|t0 r0]; [injection E as <- <-; apply D; auto|].
+  destruct t0; try (injection E as <- <-; apply D; auto).
+  apply toks_ok_cons in Hr0. destruct (peg_terms f r0) as [l r1| |] eqn:ET; try discriminate.
+  - injection E as <- <-. destruct (IH r0 l r1 (proj2 Hr0) ET) as [Pl Hr1]. cbn. rewrite Pt, Pl. split; [reflexivity|exact Hr1].
+  - injection E as <- <-. cbn. rewrite Pt. split; [reflexivity|apply toks_ok_cons; exact Hr0].
+Qed.
+
+Lemma peg_tuple_ok fuel : rec_ok (peg_tuple fuel) (fun l => forallb nm_gterm l = true).
+Proof.
+  intros ts x r H E. unfold peg_tuple in E. destruct ts as [|t ts]; [discriminate|]. destruct t; try discriminate.
+  apply toks_ok_cons in H. destruct H as [_ Hts].
+  destruct (peg_terms fuel ts) as [l r0| |] eqn:ET; try discriminate.
+  - destruct (peg_terms_ok fuel ts l r0 Hts ET) as [Pl Hr0].
+    destruct r0 as [|t0 r0]; [discriminate|]. destruct t0; try discriminate. injection E as <- <-.
+    apply toks_ok_cons in Hr0. split; [exact Pl|tauto].
+  - destruct ts as [|t0 ts]; [discriminate|]. destruct t0; try discriminate. injection E as <- <-.
+    apply toks_ok_cons in Hts. split; [reflexivity|tauto].
+Qed.
+
+Lemma peg_atom_ok fuel : rec_ok (peg_atom fuel) (fun a => nm_atomic a = true).
+Proof.
+  intros ts x r H E. unfold peg_atom in E. destruct ts as [|t ts]; [discriminate|]. destruct t; try discriminate.
+  apply toks_ok_cons in H. destruct H as [Ht Hts]. cbn [tok_ok] in Ht.
+  destruct (peg_tuple fuel ts) as [l r0| |] eqn:ET; try discriminate; injection E as <- <-.
+  - destruct (peg_tuple_ok fuel ts l r0 Hts ET) as [Pl Hr0]. cbn. rewrite Ht, Pl. split; [reflexivity|exact Hr0].
+  - cbn. rewrite Ht. split; [reflexivity|exact Hts].
+Qed.
+
+Lemma split_rel_ok ts rl r : toks_ok ts -> split_rel ts = Some (rl, r) -> toks_ok r.
+Proof.
+  intros H E. destruct ts as [|t ts]; [discriminate|]. apply toks_ok_cons in H.
+  destruct t; try discriminate; injection E as <- <-; try tauto; try (apply toks_ok_cons; split; [reflexivity|tauto]).
+Qed.
+
+Lemma peg_guards_ok' fuel : rec_ok (peg_guards fuel) (fun gs => forallb (fun g => nm_gterm (gterm_of g)) gs = true).
+Proof.
+  induction fuel as [|f IH]; intros ts x r H E; [discriminate|]. cbn [peg_guards] in E.
+  destruct (split_rel ts) as [[rl r0]|] eqn:ES; [|injection E as <- <-; split; [reflexivity|exact H]].
+  pose proof (split_rel_ok ts rl r0 H ES) as Hr0.
+  destruct (peg_gterm f r0) as [t r1| |] eqn:EG; try discriminate; [|injection E as <- <-; split; [reflexivity|exact H]].
+  destruct (peg_gterm_ok f r0 t r1 Hr0 EG) as [Pt Hr1].
+  destruct (peg_guards f r1) as [gs r2| |] eqn:EGS; try discriminate. injection E as <- <-.
+  destruct (IH r1 gs r2 Hr1 EGS) as [Pg Hr2]. cbn. rewrite Pt, Pg. split; [reflexivity|exact Hr2].
+Qed.
+
+Lemma peg_atomic_ok fuel : rec_ok (peg_atomic fuel) (fun a => nm_atomic a = true).
+Proof.
+  intros ts x r H E. unfold peg_atomic in E.
+  assert (C : forall a r0, peg_comparison fuel ts = Ok a r0 -> nm_atomic a = true /\ toks_ok r0).
+  { intros a r0 EC. unfold peg_comparison in EC.
+    destruct (peg_gterm fuel ts) as [t r1| |] eqn:EG; try discriminate.
+    destruct (peg_gterm_ok fuel ts t r1 H EG) as [Pt Hr1].
+    destruct (peg_guards fuel r1) as [gs r2| |] eqn:EGS; try discriminate.
+    destruct (peg_guards_ok' fuel r1 gs r2 Hr1 EGS) as [Pg Hr2].
+    destruct gs as [|g gs]; [discriminate|]. injection EC as <- <-. cbn [nm_atomic nonempty]. rewrite Pt, Pg. split; [reflexivity|exact Hr2]. }
+  assert (D : match peg_comparison fuel ts with Ok a r0 => Ok a r0 | Oof => Oof | Fail => peg_atom fuel ts end = Ok x r ->
+              nm_atomic x = true /\ toks_ok r).
+  { destruct (peg_comparison fuel ts) as [a r0| |] eqn:EC; try discriminate.
+    - intros [= <- <-]. apply (C a r0 eq_refl).
+    - intros EA. apply (peg_atom_ok fuel ts x r H EA). }
+  destruct ts as [|t ts]; [apply D; exact E|].
+  destruct t; try (apply D; exact E); injection E as <- <-; apply toks_ok_cons in H; (split; [reflexivity|tauto]).
+Qed.
+
+(* ---------- formulas ---------- *)
+Definition pre_ok (p : fpre) : Prop :=
+  match p with PNot => True | PQuant _ vs => nonempty vs = true /\ forallb wf_var vs = true end.
+Notation FOK := (items_ok formula fpre bconn (fun f => nm_formula f = true) pre_ok).
+
+Lemma take_vars_ok ts vs r : toks_ok ts -> take_vars ts = (vs, r) -> forallb wf_var vs = true /\ toks_ok r.
+Proof.
+  revert vs r. induction ts as [|t ts IH]; intros vs r H E.
+  - injection E as <- <-. split; [reflexivity|exact H].
+  - destruct t; try (injection E as <- <-; split; [reflexivity|exact H]).
+    cbn [take_vars] in E. destruct (take_vars ts) as [vs' r'] eqn:E'. injection E as <- <-.
+    apply toks_ok_cons in H. destruct H as [Hx Hr]. cbn [tok_ok] in Hx. destruct (IH vs' r' Hr eq_refl) as [A C].
+    split; [|exact C]. cbn [forallb]. unfold wf_var at 1. cbn [vname]. rewrite Hx, A. reflexivity.
+Qed.
+
+Lemma peg_quant_ok q kw ts p r : toks_ok ts -> peg_quant q kw ts = Some (p, r) -> pre_ok p /\ toks_ok r.
+Proof.
+  intros H E. unfold peg_quant in E. destruct (strip_kw kw ts) as [r0|] eqn:ES; [|discriminate].
+  pose proof (strip_kw_ok kw ts r0 H ES) as Hr0.
+  destruct (take_vars r0) as [[|v vs] r1] eqn:ET; [discriminate|]. injection E as <- <-.
+  destruct (take_vars_ok r0 (v :: vs) r1 Hr0 ET) as [A C]. split; [split; [reflexivity|exact A]|exact C].
+Qed.
+
+Lemma peg_prefix_ok ts p r : toks_ok ts -> peg_prefix ts = Some (p, r) -> pre_ok p /\ toks_ok r.
+Proof.
+  intros H E. unfold peg_prefix in E.
+  destruct (peg_quant QForall "forall" ts) as [[p1 r1]|] eqn:E1.
+  - injection E as <- <-. eapply peg_quant_ok; eassumption.
+  - destruct (peg_quant QExists "exists" ts) as [[p2 r2]|] eqn:E2.
+    + injection E as <- <-. eapply peg_quant_ok; eassumption.
+    + destruct (strip_kw "not" ts) as [r3|] eqn:E3; [|discriminate]. injection E as <- <-.
+      split; [exact I|eapply strip_kw_ok; eassumption].
+Qed.
+
+Lemma peg_infix_ok ts c r : toks_ok ts -> peg_infix ts = Some (c, r) -> toks_ok r.
+Proof.
+  intros H E. unfold peg_infix in E.
+  assert (D : match strip_kw "and" ts with Some r0 => Some (CAnd, r0)
+              | None => match strip_kw "or" ts with Some r0 => Some (COr, r0) | None => None end end = Some (c, r) -> toks_ok r).
+  { destruct (strip_kw "and" ts) as [r0|] eqn:E1; [intros [= <- <-]; eapply strip_kw_ok; eassumption|].
+    destruct (strip_kw "or" ts) as [r0|] eqn:E2; [intros [= <- <-]; eapply strip_kw_ok; eassumption|discriminate]. }
+  destruct ts as [|t ts]; [apply D; exact E|]. pose proof H as H'. apply toks_ok_cons in H'.
+  destruct t; try (apply D; exact E); injection E as <- <-; try tauto; try (apply toks_ok_cons; split; [reflexivity|tauto]).
+Qed.
+
+Lemma FOK_app a b : FOK a -> FOK b -> FOK (a ++ b).
+Proof. intros [A1 A2] [B1 B2]. split; intros x Hx; apply in_app_or in Hx; destruct Hx; auto. Qed.
+Lemma FOK_nil : FOK [].
+Proof. split; intros ? []. Qed.
+
+Section FormulaImage.
+  Variable rec : list token -> res formula.
+  Variable afuel : nat.
+  Hypothesis Hrec : rec_ok rec (fun f => nm_formula f = true).
+
+  Lemma f_prefixes_ok fuel : forall ts ps r, toks_ok ts -> f_prefixes fuel ts = Ok ps r ->
+    FOK ps /\ toks_ok r.
+  Proof.
+    induction fuel as [|f IH]; intros ts ps r H E; [discriminate|]. cbn [f_prefixes] in E.
+    destruct (peg_prefix ts) as [[p r0]|] eqn:EP; [|injection E as <- <-; split; [apply FOK_nil|exact H]].
+    destruct (peg_prefix_ok ts p r0 H EP) as [Pp Hr0].
+    destruct (f_prefixes f r0) as [ps' r1| |] eqn:EF; try discriminate. injection E as <- <-.
+    destruct (IH r0 ps' r1 Hr0 EF) as [[A C] Hr1]. split; [|exact Hr1]. split.
+    - intros t [Ht|Ht]; [discriminate|apply A; exact Ht].
+    - intros u [Hu|Hu]; [injection Hu as <-; exact Pp|apply C; exact Hu].
+  Qed.
+
+  Lemma f_atomic_ok : rec_ok (f_atomic afuel) (fun f => nm_formula f = true).
+  Proof.
+    intros ts x r H E. unfold f_atomic in E. destruct (peg_atomic afuel ts) as [a r0| |] eqn:EA; try discriminate.
+    injection E as <- <-. apply (peg_atomic_ok afuel ts a r0 H EA).
+  Qed.
+
+  Lemma f_primary_ok : rec_ok (f_primary rec afuel) (fun f => nm_formula f = true).
+  Proof.
+    intros ts x r H E. unfold f_primary in E.
+    destruct ts as [|t ts]; [apply (f_atomic_ok [] x r H E)|].
+    destruct t; try (apply (f_atomic_ok _ x r H E)).
+    pose proof H as H'. apply toks_ok_cons in H'. destruct H' as [_ Hts].
+    destruct (rec ts) as [f r0| |] eqn:ER; try discriminate; try (apply (f_atomic_ok _ x r H E)).
+    destruct (Hrec ts f r0 Hts ER) as [Pf Hr0].
+    destruct r0 as [|t0 r0]; [apply (f_atomic_ok _ x r H E)|].
+    destruct t0; try (apply (f_atomic_ok _ x r H E)). injection E as <- <-.
+    apply toks_ok_cons in Hr0. split; [exact Pf|tauto].
+  Qed.
+
+  Lemma f_operand_ok fuel ts its r : toks_ok ts -> f_operand rec afuel fuel ts = Ok its r -> FOK its /\ toks_ok r.
+  Proof.
+    intros H E. unfold f_operand in E. destruct (f_prefixes fuel ts) as [ps r0| |] eqn:EF; try discriminate.
+    destruct (f_prefixes_ok fuel ts ps r0 H EF) as [A Hr0].
+    destruct (f_primary rec afuel r0) as [t r1| |] eqn:EP; try discriminate. injection E as <- <-.
+    destruct (f_primary_ok r0 t r1 Hr0 EP) as [Pt Hr1]. split; [|exact Hr1].
+    apply FOK_app; [exact A|]. split; [intros t0 [Ht0|[]]; injection Ht0 as <-; exact Pt|intros u [Hu|[]]; discriminate].
+  Qed.
+
+  Lemma f_tail_ok fuel : forall ts its r, toks_ok ts -> f_tail rec afuel fuel ts = Ok its r -> FOK its /\ toks_ok r.
+  Proof.
+    induction fuel as [|f IH]; intros ts its r H E; [discriminate|]. cbn [f_tail] in E.
+    destruct (peg_infix ts) as [[c r0]|] eqn:EI; [|injection E as <- <-; split; [apply FOK_nil|exact H]].
+    pose proof (peg_infix_ok ts c r0 H EI) as Hr0.
+    destruct (f_operand rec afuel f r0) as [its1 r1| |] eqn:EO; try discriminate; [|injection E as <- <-; split; [apply FOK_nil|exact H]].
+    destruct (f_operand_ok f r0 its1 r1 Hr0 EO) as [A Hr1].
+    destruct (f_tail rec afuel f r1) as [its2 r2| |] eqn:ET; try discriminate. injection E as <- <-.
+    destruct (IH r1 its2 r2 Hr1 ET) as [C Hr2]. split; [|exact Hr2].
+    destruct (FOK_app its1 its2 A C) as [X Y]. split; intros x Hx; (destruct Hx as [Hx|Hx]; [discriminate|auto]).
+  Qed.
+End FormulaImage.
+
+Lemma nm_mk_fpre p f : pre_ok p -> nm_formula f = true -> nm_formula (mk_fpre p f) = true.
+Proof. destruct p as [|q vs]; cbn; [auto|]. intros [A C] F. rewrite A, C, F. reflexivity. Qed.
+
+Lemma pratt_formula_ok its f : FOK its -> pratt_formula its = Some f -> nm_formula f = true.
+Proof.
+  intros H E. unfold pratt_formula in E.
+  eapply (pratt_image_top formula fpre bconn _ _ _ _ (fun f => nm_formula f = true) pre_ok); [| |exact H|exact E].
+  - intros u t Hu Ht. apply nm_mk_fpre; assumption.
+  - intros o l r Hl Hr. cbn. rewrite Hl, Hr. reflexivity.
+Qed.
+
+Lemma peg_formula_ok fuel : rec_ok (peg_formula fuel) (fun f => nm_formula f = true).
+Proof.
+  induction fuel as [|f IH]; intros ts x r H E; [discriminate|]. cbn [peg_formula] in E.
+  destruct (f_operand (peg_formula f) f f ts) as [its r0| |] eqn:EO; try discriminate.
+  destruct (f_operand_ok _ f IH f ts its r0 H EO) as [A Hr0].
+  destruct (f_tail (peg_formula f) f f r0) as [more r1| |] eqn:ET; try discriminate.
+  destruct (f_tail_ok _ f IH f r0 more r1 Hr0 ET) as [C Hr1].
+  destruct (pratt_formula (its ++ more)) as [t|] eqn:EP; [|discriminate]. injection E as <- <-.
+  split; [|exact Hr1]. eapply pratt_formula_ok; [exact (FOK_app its more A C)|exact EP].
+Qed.
